@@ -4,6 +4,7 @@ import (
 	"encoding/json"
 	"fmt"
 	"sync"
+	"time"
 
 	"github.com/corestario/kyber/pairing"
 	"github.com/corestario/kyber/sign/tbls"
@@ -14,6 +15,7 @@ import (
 	"github.com/lidofinance/dc4bc/pkg/utils"
 
 	"verif/mc/oracle"
+	"verif/mc/world"
 	"verif/mc/worldx"
 )
 
@@ -94,14 +96,41 @@ func c03(tier string, args []string) int {
 					ids = append(ids, t.MessageID)
 				}
 				trace := map[string]interface{}{"batch": bi, "tasks": ids}
-				m := k.W.ProposalMessage(0, sw.Round, batchID, tasks)
-				// the reference is the proposal AS IT IS ON THE BOARD (JSON replaces invalid
-				// UTF-8 in file names when the proposer serialises it)
-				var posted requests.SigningBatchProposalStartRequest
-				if err := json.Unmarshal(m.Data, &posted); err != nil {
+				// The proposal is posted as RAW JSON written by the harness's own types (what an
+				// unchanged proposer puts on the board: every field present, a zero-length payload
+				// as "" and an absent one as null), and the reference is computed from those same
+				// harness values - neither depends on the repository's struct tags.
+				type rawTask struct {
+					MessageID  string
+					File       string
+					Payload    []byte
+					RangeStart int
+					RangeEnd   int
+				}
+				type rawProposal struct {
+					BatchID       string
+					ParticipantId int
+					CreatedAt     time.Time
+					SigningTasks  []rawTask
+				}
+				rp := rawProposal{BatchID: batchID, ParticipantId: 0, CreatedAt: world.T0}
+				for _, t := range tasks {
+					rp.SigningTasks = append(rp.SigningTasks, rawTask{t.MessageID, t.File, t.Payload, t.RangeStart, t.RangeEnd})
+				}
+				rawBz, _ := json.Marshal(rp)
+				p0 := k.W.Nodes[0]
+				m := world.SignedMessage(sw.Round, string(sif.EventSigningStart), rawBz, p0.Name, p0.KeyPair.Priv, "")
+				// file names travel as JSON strings: invalid UTF-8 is replaced when the proposer
+				// serialises it, so the reference takes the names back from the posted bytes
+				var posted rawProposal
+				if err := json.Unmarshal(rawBz, &posted); err != nil {
 					r.Infra("proposal does not parse: %v", err)
 				}
-				ref, rerr := RefExpand(posted.SigningTasks)
+				var refTasks []requests.SigningTask
+				for i, t := range posted.SigningTasks {
+					refTasks = append(refTasks, requests.SigningTask{MessageID: t.MessageID, File: t.File, Payload: tasks[i].Payload, RangeStart: t.RangeStart, RangeEnd: t.RangeEnd})
+				}
+				ref, rerr := RefExpand(refTasks)
 				if rerr != nil {
 					r.Infra("reference expansion: %v", rerr)
 				}
